@@ -267,3 +267,5 @@ Definition model_q (c : case_C19) (i : nat) : option qres :=
   | Some q => Some (fst (run_q (mkroot (c19_base c) (c19_tree c)) q))
   | None => None
   end.
+Definition pre_count (c : case_C19) : N * N :=
+  (N.of_nat (List.length (filter (pre_q (c19_base c) (c19_tree c)) (c19_qs c))), N.of_nat (List.length (c19_qs c))).
